@@ -46,6 +46,8 @@ type c13Case struct {
 	// Warm: another transform (same schema, these records) is run before the measured one in the
 	// "dirty" configuration, without resetting any cache
 	Warm []gen.Rec `json:"warm,omitempty"`
+	// sample mode: repository sample number Sample (schema and input)
+	Sample int `json:"sample,omitempty"`
 }
 
 func genC13(t *rapid.T) c13Case {
@@ -66,6 +68,12 @@ func genC13(t *rapid.T) c13Case {
 			c.Trap = append(c.Trap, tr)
 		}
 		return c
+	}
+	if rapid.IntRange(0, 7).Draw(t, "sampleArm") == 0 {
+		if c.Sample = drawSample(t, "sample"); c.Sample > 0 {
+			c.Mode = "sample"
+			return c
+		}
 	}
 	c.Mode = "shape"
 	c.Shape = gen.DrawShape(t, gen.ShapeOpts{MaxXform: 3})
@@ -89,6 +97,10 @@ const c13TrapSchema = `{"parser_settings":{"version":"omni.2.1","file_format_typ
 }},"t":{"object":{"inner":{"xpath":"a"}}}}}`
 
 func (c c13Case) schemaAndInput(recs []gen.Rec) (string, []byte) {
+	if c.Mode == "sample" {
+		sch, in, _, _ := sampleOf(c.Sample)
+		return sch, in
+	}
 	if c.Mode == "trap" {
 		var b strings.Builder
 		b.WriteString("<root>")
@@ -215,6 +227,9 @@ func checkC13(c c13Case) obs.Result {
 	defer c13ResetAll()
 	schema, in := c.schemaAndInput(c.Recs)
 	classes := []string{"mode=" + c.Mode}
+	if c.Mode == "sample" {
+		classes = append(classes, "repo-sample")
+	}
 	if c.Mode == "shape" {
 		classes = append(classes, "format="+c.Shape.Format, fmt.Sprintf("xform=%d", c.Shape.Xform))
 	}
@@ -275,7 +290,7 @@ func checkC13(c c13Case) obs.Result {
 		}
 	}
 	// caches left dirty by an earlier transform over the same schema
-	if c.Mode == "shape" && len(c.Warm) > 0 {
+	if (c.Mode == "shape" && len(c.Warm) > 0) || c.Mode == "sample" {
 		c13ResetAll()
 		ws, win := c.schemaAndInput(c.Warm)
 		if sch, err := omniparser.NewSchema("schema", strings.NewReader(ws)); err == nil {
@@ -321,7 +336,7 @@ func checkC13(c c13Case) obs.Result {
 			nrec++
 		}
 	}
-	nt := nrec >= 2 && (c.Mode == "trap" || c.Shape.Xform >= 1)
+	nt := nrec >= 2 && (c.Mode == "trap" || c.Mode == "sample" || c.Shape.Xform >= 1)
 	return obs.OK(nt, classes...)
 }
 
